@@ -229,6 +229,8 @@ class Extractor:
                 if dst is not None:
                     env[dst] = ("unknown", str(e))
         if not apps:
+            if 0 in env and env[0][0] not in ("tuple", "unknown"):
+                return env[0]          # a function / closure that returns a parser value (continuation of flat_map)
             raise Unsupported("no parser application found in %s" % body.name)
         for bb, term in apps:
             if term[0] == "unknown":
@@ -292,6 +294,18 @@ class Extractor:
             if t[0] != "tuple":
                 raise Unsupported("alt() of a non-tuple")
             return ("alt", list(t[1]))
+        if short == "flat_map" and "::combinator::" in name:
+            # flat_map(p, |x| q(x)): p, then the parser the closure builds from p's output
+            clo = None
+            l = op_local(A[1])
+            if l is not None:
+                clo = self._closure_of(body, l)
+            c = op_const(A[1])
+            if clo is None and c is not None and "closure" in c:
+                clo = self.prog.bodies.get(c["closure"])
+            if clo is None:
+                raise Unsupported("flat_map with a non-closure continuation")
+            return ("seq", [(T(0), True), (self.of_fn(clo), True)])
         if short == "length_data":
             return ("seq", [(T(0), True), (("take", "n"), True)])
         raise Unsupported("nom combinator %s" % name)
